@@ -583,7 +583,11 @@ def _case(task):
         main = D.write_case(d, files)
         # the case's own directory under one of four spellings (canonical, `/.`, `/../name`, doubled slash): the outcome
         # of the front end must not depend on how an inclusion directory is written
-        dsp = [d, d + '/.', os.path.join(d, '..', os.path.basename(d)), os.path.dirname(d) + '//' + os.path.basename(d)][task['id'] % 4]
+        inc_fault = any(f.get('sub') == 'alias:self-inclusion' or '$include' in [str(x) for x in (f.get('path') or [])]
+                        for f in (task.get('faults') or []))
+        # (faults on inclusions always run under a non-canonical spelling: cycle detection compares paths)
+        dsp = [d, d + '/.', os.path.join(d, '..', os.path.basename(d)), os.path.dirname(d) + '//' + os.path.basename(d)][
+            (1 + task['id'] % 3) if inc_fault else task['id'] % 4]
         incdirs = [dsp] + ([base.incdir] if base is not None else [])
         r = _api('from_file', main, incdirs)
         out['from_file'] = _slim(r)
